@@ -92,7 +92,7 @@ class Tree:
                 body = rng.choice(MESSY[:4])
             else:
                 p = SHELL_PATH[slot]
-                pool = {"unf": MESSY + (MESSY_BASH if (bash_ok and p.endswith(".bash")) else []),
+                pool = {"unf": MESSY + (MESSY_BASH if (bash_ok and p.endswith((".bash", ".sh"))) else []),
                         "fmt": NATIVE_FMT + ["@derived"] * 3, "err": BROKEN}[stt]
                 body = rng.choice(pool)
                 if rich and stt == "unf":
